@@ -283,57 +283,39 @@ Fixpoint run (c : fmt_config) (s : st) (carry : list com) (its : list item) : li
   end.
 
 (* ---------------------------------------------------------------- top-level declarations *)
-(* a declaration with the comments that move with it *)
-Record group := Group { g_lead : list com; g_items : list item; g_trail : list com }.
-
-(* [cur] = the declaration being read (its items reversed); a declaration ends with the "}" that
-   returns to depth 0 or with a ";" at depth 0 *)
-Fixpoint split_groups (d : nat) (cur : option (list com * list item)) (its : list item)
-  : list group * option (list com * list item) :=
+(* the items of one declaration: it ends with the "}" that returns to depth 0 or with a ";" at
+   depth 0.  [chunks] returns the complete declarations and the unfinished remainder. *)
+Fixpoint chunks (d : nat) (acc : list item) (its : list item) : list (list item) * list item :=
   match its with
-  | [] => ([], cur)
+  | [] => ([], rev acc)
   | (cs, t) :: rest =>
       let k := tk t in
       let d' := match k with KLBrace => S d | KRBrace => pred d | _ => d end in
-      let closes := (kis k KRBrace || kis k KSemi) && Nat.eqb d' 0 in
-      match cur with
-      | None =>
-          (* first token of a declaration: the comments on the previous token's line trail it *)
-          let (tr, lead) := split_lf0 cs in
-          let '(gs, c') :=
-            if closes then let (gs, c') := split_groups d' None rest in (Group lead [([], t)] [] :: gs, c')
-            else split_groups d' (Some (lead, [([], t)])) rest in
-          (Group [] [] tr :: gs, c')                   (* marker: [tr] trails the previous group *)
-      | Some (lead, acc) =>
-          if closes then let (gs, c') := split_groups d' None rest in (Group lead (rev ((cs, t) :: acc)) [] :: gs, c')
-          else split_groups d' (Some (lead, (cs, t) :: acc)) rest
-      end
+      if (kis k KRBrace || kis k KSemi) && Nat.eqb d' 0
+      then let (gs, r) := chunks d' [] rest in (rev ((cs, t) :: acc) :: gs, r)
+      else chunks d' ((cs, t) :: acc) rest
   end.
 
-(* fold the "trailing comments" markers into the preceding group; a marker before the first
-   declaration stays with the leading comments of that declaration *)
-Fixpoint attach (pending : list com) (prev : option group) (gs : list group) : list group :=
-  match gs with
-  | [] => match prev with Some g => [g] | None => [] end
-  | g :: r =>
-      match g_items g with
-      | [] =>
-          match prev with
-          | Some p => attach [] (Some (Group (g_lead p) (g_items p) (g_trail p ++ g_trail g))) r
-          | None => attach (pending ++ g_trail g) None r
-          end
-      | _ :: _ =>
-          let g' := Group (pending ++ g_lead g) (g_items g) (g_trail g) in
-          match prev with Some p => p :: attach [] (Some g') r | None => attach [] (Some g') r end
-      end
+(* a declaration with the comments that trail it (on the line of its last token); the comments
+   before its first token lead it *)
+Record group := Group { g_items : list item; g_trail : list com }.
+
+(* the comments before the first token of a declaration that sit on the previous token's line *)
+Definition strip (g : list item) : list com * list item :=
+  match g with
+  | (cs, t) :: more => let (tr, lead) := split_lf0 cs in (tr, (lead, t) :: more)
+  | [] => ([], [])
   end.
 
-Fixpoint add_trail (tr : list com) (gs : list group) : list group :=
-  match gs with
-  | [] => []
-  | [g] => [Group (g_lead g) (g_items g) (g_trail g ++ tr)]
-  | g :: r => g :: add_trail tr r
+Fixpoint detach_from (cur : list item) (rest : list (list item)) (tail : list com) : list group :=
+  match rest with
+  | [] => [Group cur tail]
+  | g :: rest' => let (tr, g') := strip g in Group cur tr :: detach_from g' rest' tail
   end.
+
+(* the first declaration keeps every comment before it; [tail] trails the last one *)
+Definition detach (gs : list (list item)) (tail : list com) : list group :=
+  match gs with [] => [] | g0 :: rest => detach_from g0 rest tail end.
 
 Definition decl_rank (k : kind) : nat :=
   match k with
@@ -383,14 +365,15 @@ Definition sort_groups (gs : list group) : list group :=
 
 Definition set_lf (x : com) : com := Com true (ctx x).
 
-(* items of the groups in order; the leading comments of a declaration are printed on their own lines *)
+(* items of the groups in order: the trailing comments of a declaration precede the leading
+   comments of the next one; when the declarations were moved ([mark]) the leading comments are
+   printed on their own lines *)
 Fixpoint join_groups (prev_trail : list com) (mark : bool) (gs : list group) : list item * list com :=
   match gs with
   | [] => ([], prev_trail)
   | g :: r =>
-      let lead := if mark then map set_lf (g_lead g) else g_lead g in
       let its := match g_items g with
-                 | (cs, t) :: more => (prev_trail ++ lead ++ cs, t) :: more
+                 | (cs, t) :: more => (prev_trail ++ (if mark then map set_lf cs else cs), t) :: more
                  | [] => []
                  end in
       let (outs, tail) := join_groups (g_trail g) mark r in
@@ -406,12 +389,12 @@ Definition norm_items (c : fmt_config) (its : list item) (tail : list com) : lis
   (* comments after the last token: those on its line trail the last declaration, the formatter
      prints no others *)
   let (tr, _) := split_lf0 tail1 in
-  let (gs0, cur) := split_groups 0 None out in
-  match cur with
-  | Some _ => (out, tr)                           (* unfinished declaration: nothing is sorted *)
-  | None =>
+  let (gs, rest) := chunks 0 [] out in
+  match rest with
+  | _ :: _ => (out, tr)                           (* unfinished declaration: nothing is sorted *)
+  | [] =>
       if sort_declaration c
-      then join_groups [] true (sort_groups (add_trail tr (attach [] None gs0)))
+      then join_groups [] true (sort_groups (detach gs tr))
       else (out, tr)
   end.
 
